@@ -119,10 +119,25 @@ def check_C01(tier: str, seed: int) -> int:
             ch = gen.random_choices(rng) if i % 2 else gen.default_choices()
             data = gen.encode(s, ch, rng)
             cases.append((w.put(data), s, data))
+        nbig = 0
+        for cnt in [(65535, 0), (65535, 65535), (1, 65535)]:
+            # exactly 65535 chunks in frame 0: an old-format header (new = 0) whose count equals 0xFFFF, and the two other spellings
+            # (implementation against the expectation only in the quick tier: the model is slow on such frames)
+            nbig += 1
+            s = gen.gen_sprite(rng, max_canvas=5, max_layers=4, max_frames=2)
+            ch = gen.default_choices()
+            ch["pad_frame0_to"], ch["pad_count"] = 65535, cnt
+            data = gen.encode(s, ch, rng)
+            cases.append((w.put(data), s, data))
         corpus = corpus_files()
         paths = [c[0] for c in cases] + corpus
         ib = vplib.impl_observe("release", paths, w.dir, 1)
-        mb = vplib.model_observe(paths, w.dir, 1)
+        bigidx = set(range(len(cases) - nbig, len(cases))) if tier == "quick" else set()
+        small = [i for i in range(len(paths)) if i not in bigidx]
+        mres = vplib.model_observe([paths[i] for i in small], w.dir, 1)
+        mb = list(ib)
+        for i, r in zip(small, mres):
+            mb[i] = r
         corr_fail, direct_fail = [], []
         dist = Counter()
         sigs = set()
@@ -570,6 +585,116 @@ def covered_mask(s: dict, f: int) -> List[bool]:
     return m
 
 
+def layer_sources(s: dict, f: int, l: int):
+    """(opacity product, {canvas index: unscaled RGBA of the cel pixel there}) of layer l in frame f, or None when the layer
+    has no cel there; links resolved, clipping applied"""
+    W, H = s["width"], s["height"]
+    c = s["cels"].get((f, l))
+    if c is None:
+        return None
+    if c["kind"] == "linked":
+        c = s["cels"][(c["frame"], l)]
+    lay = s["layers"][l]
+    op = mul_un8(lay["opacity"], c["opacity"])
+    bg = bool(lay["flags"] & 8)
+    src = {}
+    if c["kind"] == "tilemap":
+        ts = next(t for t in s["tilesets"] if t["id"] == lay["tileset"])
+        tw, th = ts["tw"], ts["th"]
+        for ty in range(c["h"]):
+            for tx in range(c["w"]):
+                tid = c["tiles"][ty * c["w"] + tx]
+                for py in range(th):
+                    y = ty * th + py + c["y"]
+                    if not 0 <= y < H:
+                        continue
+                    for px_ in range(tw):
+                        x = tx * tw + px_ + c["x"]
+                        if 0 <= x < W:
+                            src[y * W + x] = to_rgba(s, ts["pixels"][tid * tw * th + py * tw + px_], False)
+    else:
+        for yy in range(c["h"]):
+            y = c["y"] + yy
+            if not 0 <= y < H:
+                continue
+            for xx in range(c["w"]):
+                x = c["x"] + xx
+                if 0 <= x < W:
+                    src[y * W + x] = to_rgba(s, c["pixels"][yy * c["w"] + xx], bg)
+    return op, src
+
+
+def blendref_batch(lines: List[str], workdir: str, tag: str) -> List[int]:
+    """AseRef.blend_n (extracted from Coq) on `mode backdrop source opacity` lines; -1 where the reference is undefined"""
+    if not lines:
+        return []
+    nsh = max(1, min(vplib.NCPU, len(lines) // 20000 + 1))
+    parts = [lines[i::nsh] for i in range(nsh)]
+    files = []
+    for i, part in enumerate(parts):
+        lf = os.path.join(workdir, "%s_%d.ref" % (tag, i))
+        with open(lf, "w") as fh:
+            fh.write("\n".join(part) + "\n")
+        files.append(lf)
+
+    def run_ref(lf):
+        r = subprocess.run("ulimit -s unlimited; exec %s blendref %s" % (vplib.MODEL_DRIVER, lf), shell=True, executable="/bin/bash",
+                           stdout=subprocess.PIPE, env=vplib.ENV, timeout=1800)
+        return [int(l.split()[1]) for l in r.stdout.decode().split("\n") if l.startswith("71 ")]
+    from concurrent.futures import ThreadPoolExecutor
+    with ThreadPoolExecutor(max_workers=vplib.NCPU) as ex:
+        res = list(ex.map(run_ref, files))
+    out = [-2] * len(lines)
+    for i, r in enumerate(res):
+        if len(r) != len(parts[i]):
+            raise RuntimeError("blendref evaluated %d of %d lines" % (len(r), len(parts[i])))
+        out[i::nsh] = r
+    return out
+
+
+def compose_oracle(sprites: List[dict], workdir: str) -> List[Dict[int, List[Optional[int]]]]:
+    """The property's own formula, evaluated independently of the model: per sprite and frame the canvas obtained by starting
+    transparent and blending, for each visible layer with a cel from the lowest index up, that cel's pixels (clipped) with the
+    layer's mode and the rounded opacity product, the blend function being Spec/AseRef.blend_n (extracted from Coq).  A pixel
+    whose chain meets an undefined reference value (HSL out of range) is None."""
+    state = []     # (sprite index, frame, image list)
+    plan = []      # per state entry: list of (mode, op, src dict) bottom to top
+    for si, s in enumerate(sprites):
+        vis = gen.visible_of(s)
+        for f in range(len(s["durations"])):
+            steps = []
+            for l in range(len(s["layers"])):
+                if not vis[l]:
+                    continue
+                ls = layer_sources(s, f, l)
+                if ls is not None:
+                    steps.append((s["layers"][l]["blend"], ls[0], ls[1]))
+            state.append((si, f, [0] * (s["width"] * s["height"])))
+            plan.append(steps)
+    rnd = 0
+    while True:
+        lines, where = [], []
+        for k, steps in enumerate(plan):
+            if rnd < len(steps):
+                mode, op, src = steps[rnd]
+                img = state[k][2]
+                for idx, rgba in src.items():
+                    if img[idx] is None:
+                        continue
+                    lines.append("%d %d %d %d" % (mode, img[idx], rgba[0] | rgba[1] << 8 | rgba[2] << 16 | rgba[3] << 24, op))
+                    where.append((k, idx))
+        if not lines and all(rnd >= len(st) for st in plan):
+            break
+        res = blendref_batch(lines, workdir, "compose%d" % rnd)
+        for (k, idx), r in zip(where, res):
+            state[k][2][idx] = None if r < 0 else (0 if (r >> 24) == 0 else r)
+        rnd += 1
+    out: List[Dict[int, List[Optional[int]]]] = [dict() for _ in sprites]
+    for si, f, img in state:
+        out[si][f] = img
+    return out
+
+
 def images_of(block, kind: int) -> Dict[tuple, List[int]]:
     """{key words before the image: [w, h, pixels...]}: 22 f | 24 f l | 27 l f | 19 id | 20 id t"""
     nkey = {22: 1, 24: 2, 27: 2, 19: 1, 20: 2}[kind]
@@ -582,7 +707,7 @@ def images_of(block, kind: int) -> Dict[tuple, List[int]]:
 def run_sprites(prop: str, tier: str, seed: int, level: int, nq: int, nt: int, genkw: dict, kinds,
                 direct: Callable[[dict, bytes, object], List[str]], rule: str, expected: List[str],
                 profiles=("release",), extra_cases: Optional[Callable] = None, include_corpus=True,
-                max_frames=None, max_layers=None) -> int:
+                max_frames=None, max_layers=None, compose: bool = False) -> int:
     v = Verdict(prop, tier, seed, "proof")
     ob = vplib.check_obligations(prop, expected=expected)
     vplib.build_harness(list(profiles))
@@ -624,8 +749,33 @@ def run_sprites(prop: str, tier: str, seed: int, level: int, nq: int, nt: int, g
                     continue
                 for msg in direct(s, data, ib[i]):
                     direct_fail.append({"what": msg, "sprite": gen.describe(s), "_data": data})
+        composed = 0
+        if compose:
+            # every rendered pixel against the composition formula with Aseprite's blend functions (Spec/AseRef.v)
+            exp = compose_oracle([c[0] for c in cases], w.dir)
+            for i, (s, data, _p) in enumerate(cases):
+                if outcome(ib[i]) != 0 or vplib.section_panic(ib[i]) is not None:
+                    continue
+                imgs = images_of(ib[i], 22)
+                for f, want in exp[i].items():
+                    im = imgs.get((f,))
+                    if im is None or len(im) != 2 + len(want):
+                        continue
+                    for k, wv in enumerate(want):
+                        if wv is None:
+                            continue
+                        composed += 1
+                        if im[2 + k] != wv:
+                            direct_fail.append({"what": "frame %d pixel (%d,%d) is %s, the bottom-to-top composition of the visible cels gives %s"
+                                                        % (f, k % s["width"], k // s["width"], unpackpix(im[2 + k]), unpackpix(wv)),
+                                                "sprite": gen.describe(s), "_data": data})
+                            break
+                    else:
+                        continue
+                    break
         proof_level_coverage(v, ob, {
             "evaluations": len(allp), "distinct_nontrivial": len(sigs) + len(corpus), "rule": rule,
+            "pixels_against_composition_formula": composed,
             "samples": [gen.describe(c[0]) for c in cases[:3]],
             "correspondence_disagreements": len(corr_fail), "direct_failures": len(direct_fail)})
         return finish_with(v, ob, corr_fail, direct_fail)
@@ -678,8 +828,10 @@ def check_C02(tier, seed):
                        "structured sprites (canvas <= 10x10, 1-8 layers, all 19 blend modes, boundary-biased opacities on layer and cel, hidden layers "
                        "and groups, linked/tilemap/raw/zlib cels, offsets on/partly off/fully off canvas and at the i16 extremes, cel chunks shuffled) "
                        "+ corpus; model frame images = implementation frame images; direct: canvas dimensions, uncovered pixels transparent, "
-                       "single-visible-cel frames equal the cel's pixels; distinct = distinct structural summaries",
-                       ["C02_dims", "C02_compose", "C02_uncovered", "C02_order", "C02_compose_loaded"], extra_cases=extra, max_frames=4)
+                       "single-visible-cel frames equal the cel's pixels, and every pixel of every frame against the composition formula evaluated "
+                       "in Python with the blend function extracted from Spec/AseRef.v; distinct = distinct structural summaries",
+                       ["C02_dims", "C02_compose", "C02_uncovered", "C02_order", "C02_compose_loaded"], extra_cases=extra, max_frames=4,
+                       compose=True)
 
 
 # ==========================================================================
@@ -1283,11 +1435,16 @@ def blend_image(mode: int, k: int, variant: str, rng: random.Random, size: int =
     """two-layer sprite whose pixels enumerate an input domain; returns (bytes, B list, S list, lo, co)"""
     ba, sa, lo, co = ALPHA_OPACITY[k % len(ALPHA_OPACITY)]
     B, S = [], []
+    # "square:q": quadrant q of the channel square when the image is smaller than 256 x 256 (the four quadrants together
+    # enumerate every (backdrop channel, source channel) pair on the r channel, swapped on g)
+    quad = int(variant.split(":")[1]) if ":" in variant else 0
+    variant = variant.split(":")[0]
+    qx, qy = (quad & 1) * (256 - size), (quad >> 1) * (256 - size)
     for y in range(size):
         for x in range(size):
             if variant == "square":          # complete (backdrop channel, source channel) square on r; g swapped; b mixed
-                b = (x, y, (x + y) & 255, ba)
-                sp = (y, x, (x * 7 + y * 13) & 255, sa)
+                b = ((x + qx) & 255, (y + qy) & 255, (x + y + qx) & 255, ba)
+                sp = ((y + qy) & 255, (x + qx) & 255, (x * 7 + y * 13 + qy) & 255, sa)
             elif variant == "lattice":       # orderings and ties of (r, g, b): 16-value lattice on two channels, third rotating
                 b = (LAT16[x & 15], LAT16[x >> 4], LAT16[(x + y + k) & 15], ba)
                 sp = (LAT16[y & 15], LAT16[(y >> 4)], LAT16[(x * 3 + y + 2 * k) & 15], sa)
@@ -1306,6 +1463,46 @@ def blend_image(mode: int, k: int, variant: str, rng: random.Random, size: int =
         ase.CelChunk(layer=0, w=size, h=size, pixels=ase.rgba_bytes(B), ctype_cel=2, zlevel=1),
         ase.CelChunk(layer=1, w=size, h=size, opacity=co, pixels=ase.rgba_bytes(S), ctype_cel=2, zlevel=1)])
     return ase.serialize(ase.Sprite(width=size, height=size, frames=[fr])), B, S, lo, co
+
+
+def blend_offset_image(mode: int, rng: random.Random):
+    """two-layer sprite whose upper cel is smaller than / shifted against / partly outside the canvas, with runs of opaque,
+    translucent and transparent pixels in its rows; S[k] is None where the cel does not cover canvas pixel k"""
+    W, H = rng.randint(6, 20), rng.randint(6, 20)
+    w, h = rng.randint(1, 24), rng.randint(1, 24)
+    x = rng.choice([0, -1, -2, -(w // 2), -(w - 1), W - 1, W - w, W - w + 1, rng.randint(-w, W)])
+    y = rng.choice([0, -1, -(h // 2), -(h - 1), H - 1, H - h, H - h + 1, rng.randint(-h, H)])
+    lo, co = rng.choice([(255, 255), (255, 255), (255, 128), (77, 255), (rng.randrange(256), rng.randrange(256)), (0, 255)])
+    balpha = rng.choice([255, 255, 128, None])
+    B = [(rng.randrange(256), rng.randrange(256), rng.randrange(256), balpha if balpha is not None else rng.choice([0, 1, 128, 255]))
+         for _ in range(W * H)]
+    src = []
+    for yy in range(h):
+        pat = rng.choice(["opaque", "head", "tail", "mixed", "clear"])
+        cut = rng.randint(0, w)
+        for xx in range(w):
+            if pat == "opaque":
+                a = 255
+            elif pat == "clear":
+                a = 0
+            elif pat == "head":
+                a = 255 if xx < cut else rng.choice([0, 0, 128])
+            elif pat == "tail":
+                a = 255 if xx >= cut else rng.choice([0, 0, 128])
+            else:
+                a = rng.choice([0, 255, 255, 1, 200])
+            src.append((rng.randrange(256), rng.randrange(256), rng.randrange(256), a))
+    S = [None] * (W * H)
+    for yy in range(h):
+        for xx in range(w):
+            cx, cy = x + xx, y + yy
+            if 0 <= cx < W and 0 <= cy < H:
+                S[cy * W + cx] = src[yy * w + xx]
+    fr = ase.Frame(chunks=[
+        ase.LayerChunk(flags=1, blend=0, opacity=255, name="b"), ase.LayerChunk(flags=1, blend=mode, opacity=lo, name="s"),
+        ase.CelChunk(layer=0, w=W, h=H, pixels=ase.rgba_bytes(B), ctype_cel=2, zlevel=1),
+        ase.CelChunk(layer=1, x=x, y=y, w=w, h=h, opacity=co, pixels=ase.rgba_bytes(src), ctype_cel=rng.choice([0, 2]), zlevel=1)])
+    return ase.serialize(ase.Sprite(width=W, height=H, frames=[fr])), B, S, lo, co
 
 
 def normal_alpha(ba, sa, o):
@@ -1330,17 +1527,23 @@ def blend_check(prop: str, tier: str, seed: int) -> int:
         quick = tier == "quick"
         for m in range(19):
             sep = m in SEPARABLE or m == 0
-            variants = (["square", "square", "alpha", "lattice"] if sep else ["lattice"] * 4 + ["alpha", "square"]) + ["random"]
+            variants = (["square:0", "square:1", "square:2", "square:3", "square:0", "alpha", "lattice"] if sep
+                        else ["lattice"] * 4 + ["alpha", "square:0"]) + ["random"]
             if not quick:
                 variants = variants * 4 + ["square"] * 8
             for j, var in enumerate(variants):
-                k = (0 if (j == 0) else rng.randrange(len(ALPHA_OPACITY))) if var in ("square", "lattice") else j
+                k = (0 if (j < 4 and var.startswith("square")) or j == 0 else rng.randrange(len(ALPHA_OPACITY))) if var.split(":")[0] in ("square", "lattice") else j
                 plan.append((m, k + (j // 7) * 3, var))
         size = 128 if quick else 256
         cases = []
         for (m, k, var) in plan:
             data, B, S, lo, co = blend_image(m, k, var, rng, size)
             cases.append((m, k, var, w.put(data), B, S, lo, co))
+        # upper cels shifted against the canvas (negative offsets, partly outside), rows with opaque / clear runs
+        for m in range(19):
+            for j in range(6 if quick else 60):
+                data, B, S, lo, co = blend_offset_image(m if j else 0, rng)
+                cases.append((m if j else 0, -1, "offset", w.put(data), B, S, lo, co))
         paths = [c[3] for c in cases]
         res = {prof: vplib.impl_observe(prof, paths, w.dir, 2, timeout=2400, mem_kb=6000000) for prof in ("relchk", "dev")}
         mb = vplib.model_observe(paths, w.dir, 2, timeout=3000)
@@ -1351,6 +1554,8 @@ def blend_check(prop: str, tier: str, seed: int) -> int:
             lf = p + ".ref"
             with open(lf, "w") as f:
                 for b, sp in zip(B, S):
+                    if sp is None:
+                        sp = (0, 0, 0, 0)       # placeholder line (keeps the alignment); not compared
                     f.write("%d %d %d %d\n" % (m, b[0] | b[1] << 8 | b[2] << 16 | b[3] << 24, sp[0] | sp[1] << 8 | sp[2] << 16 | sp[3] << 24, o))
             ref_lines.append(lf)
 
@@ -1393,6 +1598,12 @@ def blend_check(prop: str, tier: str, seed: int) -> int:
             for j, got in enumerate(im):
                 b, sp = B[j], S[j]
                 npix += 1
+                if sp is None:
+                    if got != packpix(*b):
+                        direct_fail.append({"what": "a canvas pixel that the upper cel does not cover was changed", "mode": m, "backdrop": b,
+                                            "pixel_index": j, "got": unpackpix(got), "_data": open(p, "rb").read()})
+                        break
+                    continue
                 if prop == "C03":
                     want, guard, _ok = ref[j]
                     if m in HSL and not guard:
@@ -1429,7 +1640,7 @@ def blend_check(prop: str, tier: str, seed: int) -> int:
                     "(backdrop channel, source channel) square at %d alpha/opacity corners, the complete (backdrop alpha, source alpha) square, a 16-value "
                     "lattice enumerating orderings and ties of (r,g,b), and random pixels; relchk and dev builds (overflow checks and debug assertions on); "
                     "evaluations = pixels compared; distinct = (mode, corner, variant) images" % (size, size, len(ALPHA_OPACITY)),
-            "samples": [{"mode": c[0], "corner": ALPHA_OPACITY[c[1] % len(ALPHA_OPACITY)], "variant": c[2]} for c in cases[:3] + cases[-2:]],
+            "samples": [{"mode": c[0], "corner": (ALPHA_OPACITY[c[1] % len(ALPHA_OPACITY)] if c[1] >= 0 else None), "variant": c[2]} for c in cases[:3] + cases[-2:]],
             "pixels_per_mode": dict(per_mode), "images": len(cases),
             "hsl_guard_false": guard_false, "reference_undefined": undefined_ref,
             "correspondence_disagreements": len(corr_fail), "direct_failures": len(direct_fail)})
@@ -1482,8 +1693,26 @@ def check_C07(tier: str, seed: int) -> int:
                 enc.append((len(paths), ch, data))
                 paths.append(w.put(data))
             groups.append((s, enc))
+        # a frame of exactly 65535 chunks: the count fits the old field alone (old = 65535 = 0xFFFF, new = 0), both, or the new field
+        big = set()      # the model is slow on 65535-chunk frames: these inputs are checked on the implementation only
+        for _ in range(1 if tier == "quick" else 4):
+            s = gen.gen_sprite(rng, max_canvas=5, max_layers=3, max_frames=2)
+            enc = []
+            for cnt in [(65535, 65535), (65535, 0), (0, 65535)]:
+                ch = gen.default_choices()
+                ch["pad_frame0_to"], ch["pad_count"] = 65535, cnt
+                choice_hist["count65535=%s" % (cnt,)] += 1
+                data = gen.encode(s, ch, rng)
+                enc.append((len(paths), ch, data))
+                big.add(len(paths))
+                paths.append(w.put(data))
+            groups.append((s, enc))
         ib = vplib.impl_observe("release", paths, w.dir, 15, max_frames=4, max_layers=6)
-        mb = vplib.model_observe(paths, w.dir, 15, max_frames=4, max_layers=6)
+        small = [i for i in range(len(paths)) if i not in big or tier != "quick"]
+        mres = vplib.model_observe([paths[i] for i in small], w.dir, 15, max_frames=4, max_layers=6)
+        mb = list(ib)
+        for i, r in zip(small, mres):
+            mb[i] = r
         corr_fail, direct_fail = [], []
         for s, enc in groups:
             ref = ib[enc[0][0]]
@@ -1518,18 +1747,29 @@ def check_C07(tier: str, seed: int) -> int:
 C10_ALPHABET = ["layer", "cel", "slice", "tags0", "tags1", "tags2", "oldpal", "palette", "ignorable", "ud"]
 
 
-def c10_program(seq: List[str], uds: List[dict]):
-    """chunks of a one/two-frame file for the event sequence, and the expected attachment; None if inadmissible"""
-    chunks0: List[ase.Chunk] = []
-    chunks1: List[ase.Chunk] = []
+class FrameSplitList(list):
+    """the chunk list of a C10 program; .frames = the same chunks split over the frames of the file"""
+    frames: List[List[ase.Chunk]]
+
+
+def c10_program(seq: List[str], uds: List[dict], splits: Tuple[int, ...] = ()):
+    """chunks of a file for the event sequence (a new frame starts before each event index in `splits`, so an entity and its
+    record may sit in different frames), and the expected attachment; None if inadmissible"""
+    chunks0 = FrameSplitList()
+    starts = []
     ctx = None            # ("layer", i) / ("cel", f, l) / ("slice", i) / ("tag", i, n) / ("sprite",)
     owner: Dict[tuple, dict] = {}
     nlayers = nslices = 0
-    cels0 = set()
+    cels_by_frame: Dict[int, set] = {}
     have_tags = False
     ntags = 0
     ui = 0
-    for e in seq:
+    fidx = 0
+    for ei, e in enumerate(seq):
+        if ei in splits:
+            fidx += 1
+            starts.append(len(chunks0))
+        cels0 = cels_by_frame.setdefault(fidx, set())
         if e == "layer":
             chunks0.append(ase.LayerChunk(name="L%d" % nlayers))
             ctx = ("layer", nlayers)
@@ -1541,14 +1781,23 @@ def c10_program(seq: List[str], uds: List[dict]):
             l = free[0]
             cels0.add(l)
             chunks0.append(ase.CelChunk(layer=l, w=1, h=1, pixels=b"\1\2\3\4", ctype_cel=0))
-            ctx = ("cel", 0, l)
+            ctx = ("cel", fidx, l)
+        elif e == "link":
+            # a linked cel (same layer, frame 0 as the target): an entity of its own, with or without a record of its own
+            cand = [l for l in sorted(cels_by_frame.get(0, ())) if l not in cels0] if fidx > 0 else []
+            if not cand:
+                return None
+            l = cand[0]
+            cels0.add(l)
+            chunks0.append(ase.CelChunk(layer=l, ctype_cel=1, linked=0))
+            ctx = ("cel", fidx, l)
         elif e == "slice":
             chunks0.append(ase.SliceChunk(name="S%d" % nslices, keys=[ase.SliceKey(w=1, h=1)]))
             ctx = ("slice", nslices)
             nslices += 1
         elif e.startswith("tags"):
-            if have_tags:
-                return None          # a second tags chunk would replace the first: keep programs simple
+            if have_tags or fidx > 0:
+                return None          # a second tags chunk would replace the first; tags outside frame 0 are ignored: keep programs simple
             n = int(e[4:])
             have_tags = True
             ntags = n
@@ -1578,6 +1827,8 @@ def c10_program(seq: List[str], uds: List[dict]):
                 return None
             owner[key] = u
             chunks0.append(ase.UserDataChunk(text=u["text"], color=u["color"]))
+    bounds = [0] + starts + [len(chunks0)]
+    chunks0.frames = [list(chunks0[bounds[i]:bounds[i + 1]]) for i in range(len(bounds) - 1)]
     return chunks0, owner, nlayers, nslices, ntags
 
 
@@ -1590,8 +1841,9 @@ def c10_expected(owner, nlayers, nslices, ntags) -> List[List[int]]:
         out += gen.ud_lines(3, i, 0, owner.get(("tag", i)))
     for i in range(nslices):
         out += gen.ud_lines(4, i, 0, owner.get(("slice", i)))
-    for l in range(nlayers):
-        out += gen.ud_lines(2, 0, l, owner.get(("cel", 0, l)))
+    for key, u in owner.items():
+        if key[0] == "cel":
+            out += gen.ud_lines(2, key[1], key[2], u)
     return out
 
 
@@ -1624,10 +1876,42 @@ def check_C10(tier: str, seed: int) -> int:
             prog = c10_program(seq, uds)
             if prog is not None:
                 cases.append((seq, prog))
+        # the same rule across frame boundaries: an entity at the end of one frame, its record at the start of a later one
+        multi = 0
+        for seq, _prog in list(cases[:exhaustive_n:3]) + list(cases[exhaustive_n:]):
+            if len(seq) < 2:
+                continue
+            k = rng.choice([1, 1, 2, 3])
+            splits = tuple(sorted(set(rng.randint(1, len(seq) - 1) for _ in range(k))))
+            if rng.random() < 0.5 and "ud" in seq[1:]:
+                uidx = [i for i, e in enumerate(seq) if e == "ud" and i > 0]
+                splits = tuple(sorted(set(splits) | {rng.choice(uidx)}))      # a boundary directly before a record
+            prog = c10_program(seq, uds, splits)
+            if prog is not None:
+                cases.append((seq + ["frames@%s" % (list(splits),)], prog))
+                multi += 1
+        # linked cels: frame 0 holds layers and cels (some with records), later frames link to them (some with records of their own)
+        for _ in range(150 if tier == "quick" else 2000):
+            nl0 = rng.randint(1, 4)
+            seq = ["layer"] * nl0
+            for l in range(nl0):
+                seq += ["cel"] + (["ud"] if rng.random() < 0.6 else []) + (["ignorable"] if rng.random() < 0.2 else [])
+            splits = []
+            for f in range(rng.randint(1, 3)):
+                splits.append(len(seq))
+                for l in range(rng.randint(1, nl0)):
+                    seq += ["link"] + (["ud"] if rng.random() < 0.4 else [])
+            prog = c10_program(seq, uds, tuple(splits))
+            if prog is not None:
+                cases.append((seq + ["frames@%s" % (splits,)], prog))
+                multi += 1
         paths = []
         for seq, (chunks, owner, nl, ns, nt) in cases:
-            mode = rng.choice(["both", "old", "new"]) if chunks else "both"
-            data = ase.serialize(ase.Sprite(width=2, height=2, frames=[ase.Frame(chunks=chunks, count_mode=mode)]))
+            frames = []
+            for fc in chunks.frames:
+                mode = rng.choice(["both", "old", "new"]) if fc else "both"
+                frames.append(ase.Frame(chunks=fc, count_mode=mode))
+            data = ase.serialize(ase.Sprite(width=2, height=2, frames=frames))
             paths.append(w.put(data))
         ib = vplib.impl_observe("release", paths, w.dir, 5)
         mb = vplib.model_observe(paths, w.dir, 5)
@@ -1648,7 +1932,8 @@ def check_C10(tier: str, seed: int) -> int:
         proof_level_coverage(v, ob, {
             "evaluations": len(cases), "distinct_nontrivial": exhaustive_n,
             "rule": "every admissible chunk sequence of length <= %d over {layer, cel, slice, tags(0), tags(1), tags(2), legacy palette, palette, ignorable, "
-                    "user data} that contains a user-data chunk (exhaustive: %d programs out of %d sequences), plus random admissible sequences up to length 40; "
+                    "user data} that contains a user-data chunk (exhaustive: %d programs out of %d sequences), plus random admissible sequences up to length 40, "
+                    "plus the same programs split over 2-4 frames at random points and directly before records; "
                     "records carry text only / colour only / both / neither; every entity's user_data() against the window rule computed in Python; model = implementation"
                     % (maxlen, exhaustive_n, nseq),
             "samples": [c[0] for c in cases[100:103]], "exhaustive": True,
